@@ -894,18 +894,18 @@ def x_pair_sweep(backend):
     for two, fams in ((False, fams1), (True, fams2)):
         for name, nextra in fams.items():
             a = {"Vgate": 0.05, "Kgate": 0.25, "CKgate": 0.25, "Rgate": 0.75, "BSgate": 0.5, "MZgate": 0.5}.get(name, 0.25 * k)
-            for rel in ("same", "cancel", "near", "zero", "diffextra", "other"):
-                if rel == "diffextra" and not nextra:
+            for rel in ("same", "cancel", "near", "zero", "diffextra", "nearextra", "other"):
+                if rel in ("diffextra", "nearextra") and not nextra:
                     continue
                 for da in (False, True):
                     for db in (False, True):
                         ea = a
-                        eb = {"same": a, "cancel": -a, "near": -a + 2.0 ** -9, "zero": a, "diffextra": a, "other": 0.5 * a}[rel]
+                        eb = {"same": a, "cancel": -a, "near": -a + 2.0 ** -9, "zero": a, "diffextra": a, "nearextra": a, "other": 0.5 * a}[rel]
                         if rel == "zero":
                             ea = 0.0
                         pa, pb = (-ea if da else ea), (-eb if db else eb)
                         xa = [0.5] * nextra
-                        xb = [0.5] * nextra if rel != "diffextra" else [0.25] * nextra
+                        xb = [{"diffextra": 0.25, "nearextra": 0.5 + 2.0 ** -8}.get(rel, 0.5)] * nextra
                         out.append((two, "%s:%s" % (name, rel), [[name, [pa] + xa, da, {}], [name, [pb] + xb, db, {}]]))
     return out
 
@@ -916,7 +916,7 @@ def x_channel_sweep(backend):
     for a, b in Ts:
         out.append((False, "LossChannel", [["LossChannel", [a], False, {}], ["LossChannel", [b], False, {}]]))
         if backend != "fock":
-            for na, nb in ((0.4, 0.4), (0.4, 0.2), (0.0, 0.4)):
+            for na, nb in ((0.4, 0.4), (0.4, 0.2), (0.0, 0.4), (0.4, 0.4 + 2.0 ** -8)):
                 out.append((False, "ThermalLossChannel", [["ThermalLossChannel", [a, na], False, {}], ["ThermalLossChannel", [b, nb], False, {}]]))
     out.append((False, "Loss3", [["LossChannel", [0.5], False, {}], ["LossChannel", [0.5], False, {}], ["LossChannel", [0.8], False, {}]]))
     if backend == "gaussian":
@@ -1148,6 +1148,83 @@ def x_compiler_program(rng, comp):
     return {"n": n, "cmds": cmds}
 
 
+# ---- time-domain programs (TDMProgram inherits optimize / _linked_copy; parameters are the per-time-bin symbols p[i]) ------------------
+def t_build(spec):
+    prog = sf.TDMProgram(N=spec["N"])
+    with prog.context(*spec["params"]) as (p, q):
+        for name, args, modes, dagger in spec["cmds"]:
+            a = []
+            for v in args:
+                if isinstance(v, dict):
+                    k = v.get("k", 1)
+                    v = p[v["tdm"]] if k == 1 else (-p[v["tdm"]] if k == -1 else k * p[v["tdm"]])
+                a.append(v)
+            op = getattr(ops, name)(*a)
+            if dagger:
+                op = op.H
+            op | tuple(q[m] for m in modes)
+    return prog
+
+
+def t_random(rng):
+    N = rng.choice([2, 2, 3])
+    bins = rng.randint(3, 5)
+    npar = rng.randint(2, 4)
+    params = [[round(rng.uniform(-1, 1), 3) for _ in range(bins)] for _ in range(npar)]
+    cmds = [["Sgate", [0.5, 0.0], [N - 1], False]]
+    prev = None
+    for _ in range(rng.randint(3, 9)):
+        if prev and rng.random() < 0.5:
+            name, modes = prev[0], list(prev[2])
+        else:
+            name = rng.choice(["Rgate", "Rgate", "Dgate", "Sgate", "BSgate", "Zgate"])
+            modes = rng.sample(range(N), 2) if name == "BSgate" else [rng.randrange(N)]
+        r = rng.random()
+        a0 = {"tdm": rng.randrange(npar - 1), "k": rng.choice([1, 1, -1, 0.5])} if r < 0.5 else rng.choice([0.25, -0.25, 0.5])
+        if prev and prev[0] == name and r > 0.8:
+            a0 = prev[1][0] if isinstance(prev[1][0], (int, float)) else dict(prev[1][0], k=-prev[1][0].get("k", 1))
+            if isinstance(a0, (int, float)):
+                a0 = -a0
+        args = [a0] + ([0.5] if name in ("Dgate", "Sgate", "BSgate") else [])
+        c = [name, args, modes, name != "BSgate" and rng.random() < 0.25]
+        cmds.append(c)
+        prev = c
+    cmds.append(["MeasureHomodyne", [{"tdm": npar - 1}], [0], False])
+    return {"N": N, "params": params, "cmds": cmds, "draw": rng.choice([0.3, -0.8])}
+
+
+def t_check(spec):
+    import warnings
+    def run(prog):
+        with warnings.catch_warnings(), _Draws(spec["draw"]):
+            warnings.simplefilter("ignore")
+            return np.asarray(sf.Engine("gaussian").run(prog, shots=1).samples, dtype=float)
+    with warnings.catch_warnings():
+        warnings.simplefilter("ignore")
+        fresh, prog = t_build(spec), t_build(spec)
+        fp0 = x_fingerprint(prog)
+        try:
+            opt = prog.optimize()
+        except Exception as e:
+            return "tdm:optimize:raises:%s" % type(e).__name__, "TDMProgram.optimize raised %r" % e, True
+        if x_fingerprint(prog) != fp0:
+            return "tdm:optimize:mutates-original", "TDMProgram.optimize changed the original: " + _fp_diff(fp0, x_fingerprint(prog)), True
+        merged = len(opt.circuit) < len(prog.circuit)
+        try:
+            ref = run(fresh)
+        except Exception:
+            return None, "the unoptimised time-domain program cannot be run", False
+        try:
+            got = run(opt)
+            again = run(prog)
+        except Exception as e:
+            return "tdm:optimize:run-raises:%s" % type(e).__name__, "running the optimised time-domain program raised %r" % e, True
+        for nm, v in (("optimised", got), ("original (after its copy ran)", again)):
+            if v.shape != ref.shape or float(np.abs(v - ref).max()) > 1e-6:
+                return "tdm:optimize:changes-samples", "the %s time-domain program gives other samples: %s vs %s" % (nm, v.tolist(), ref.tolist()), True
+    return None, "", merged
+
+
 X_ROUTES = {"gaussian": ["opt", "opt", "opt", "opt2", "ran", "engine", "compiled-then-opt", "compile:gaussian"],
             "fock": ["opt", "opt", "opt2", "ran", "engine", "compiled-then-opt", "compile:fock"],
             "bosonic": ["opt", "opt", "opt2", "engine", "compile:bosonic"]}
@@ -1202,6 +1279,20 @@ def search_extended(ctx):
     for backend, cnt in (("gaussian", ctx.budget(80, 900)), ("fock", ctx.budget(20, 300)), ("bosonic", ctx.budget(10, 120))):
         for _ in range(cnt):
             x_judge(ctx, finish(x_random(rng, backend), backend), "x-random/" + backend)
+    for _ in range(ctx.budget(12, 150)):
+        spec = t_random(rng)
+        data = {"check": "tdm", "spec": spec}
+        try:
+            sig, text, merged = t_check(spec)
+        except Exception as e:
+            ctx.counterexample("tdm:raises:%s" % type(e).__name__, "checking a time-domain program raised %r" % e, data)
+            continue
+        if sig is None and text:
+            ctx.hist["x-skipped:" + text[:40]] = ctx.hist.get("x-skipped:" + text[:40], 0) + 1
+            continue
+        ctx.case(spec, nontrivial=bool(merged), bucket="x-tdm")
+        if sig is not None:
+            ctx.counterexample(sig, text, data)
     # 5. the special-purpose compilers
     for comp in ("gaussian_unitary", "gaussian_merge", "passive", "gbs", "Xunitary", "Xcov"):
         for _ in range(ctx.budget(10, 100)):
@@ -1210,6 +1301,10 @@ def search_extended(ctx):
 
 def replay(ctx, data):
     d = data["data"]
+    if d.get("check") == "tdm":
+        r = t_check(d["spec"])
+        print("time-domain program:", r[:2])
+        return r[0] is not None
     if d.get("check") == "xspec":
         r = x_check(d["spec"])
         print("extended stream:", r[:2])
